@@ -92,7 +92,7 @@ func Table(t *srctab.T) {
 	t.Emit("enc.nonceForSegment.lastFlag", p.Pos(nfs), srctab.L(flags...)) // [(index, value if last); (index, value otherwise)]
 
 	// ciphers.go / algorithms.go: names, numeric ids, aliases
-	sw := func(fn, tag string) srctab.Val {
+	sw := func(fn, tag string) []srctab.Val {
 		f := p.Func(fn)
 		var out []srctab.Val
 		for _, c := range p.Switch(f, tag) {
@@ -102,12 +102,12 @@ func Table(t *srctab.T) {
 		}
 		return srctab.SortedPairs(out)
 	}
-	t.Emit("enc.Cipher.Validate", "schemes/enc/v1/ciphers.go", sw("Cipher.Validate", "c"))
-	t.Emit("enc.Cipher.ID", "schemes/enc/v1/ciphers.go", sw("Cipher.ID", "c"))
-	t.Emit("enc.NewCipherFromID", "schemes/enc/v1/ciphers.go", sw("NewCipherFromID", "id"))
-	t.Emit("enc.KeyAlgorithm.Validate", "schemes/enc/v1/algorithms.go", sw("KeyAlgorithm.Validate", "a"))
-	t.Emit("enc.KeyAlgorithm.ID", "schemes/enc/v1/algorithms.go", sw("KeyAlgorithm.ID", "a"))
-	t.Emit("enc.NewKeyAlgorithmFromID", "schemes/enc/v1/algorithms.go", sw("NewKeyAlgorithmFromID", "id"))
+	t.EmitPairs("enc.Cipher.Validate", "schemes/enc/v1/ciphers.go", sw("Cipher.Validate", "c"))
+	t.EmitPairs("enc.Cipher.ID", "schemes/enc/v1/ciphers.go", sw("Cipher.ID", "c"))
+	t.EmitPairs("enc.NewCipherFromID", "schemes/enc/v1/ciphers.go", sw("NewCipherFromID", "id"))
+	t.EmitPairs("enc.KeyAlgorithm.Validate", "schemes/enc/v1/algorithms.go", sw("KeyAlgorithm.Validate", "a"))
+	t.EmitPairs("enc.KeyAlgorithm.ID", "schemes/enc/v1/algorithms.go", sw("KeyAlgorithm.ID", "a"))
+	t.EmitPairs("enc.NewKeyAlgorithmFromID", "schemes/enc/v1/algorithms.go", sw("NewKeyAlgorithmFromID", "id"))
 
 	// manifest.go: the JSON member names, in struct order
 	var tags []srctab.Val
